@@ -260,7 +260,10 @@ def routing_rule(ctx):
         calls.append((dict(d), isMatrix))
         return Lbl("assembled", len(calls) - 1)
 
-    obj = XObj(simu, dict(Get_dof_n=lambda pt=None: 2, _Simu__Get_Ndof=lambda pt=None: 10, Construct_local_matrix_system=lambda pt: dict(table), _verbosity=False, _Simu__Assemble_csr=asm))
+    # the mesh of the stand-in: the group that provides only F is a boundary group (lower dimension) - an element-level system
+    # may come from any group of the mesh (Robin / exchange terms on the boundary), not only from the main-dimension ones
+    mesh_stub = SimpleNamespace(Get_list_groupElem=lambda dim=None: [g for g in groups if g is not groups[3]] if dim is None else list(groups), dict_groupElem={g.tag: g for g in groups}, groupElem=groups[4], dim=2)
+    obj = XObj(simu, dict(Get_dof_n=lambda pt=None: 2, _Simu__Get_Ndof=lambda pt=None: 10, Construct_local_matrix_system=lambda pt: dict(table), _verbosity=False, _Simu__Assemble_csr=asm, mesh=mesh_stub, _Simu__mesh=mesh_stub))
     I = Interp(repo, extra_builtins={"Tic": lambda *a, **k: SimpleNamespace(Tac=lambda *a, **k: 0.0)})
     I.call_hook = hook
     out = I.call_function(fa, [Opaque("pt")], self_obj=obj)
